@@ -70,7 +70,8 @@ def make_case(ctx, rng, route, norb):
         if norb > 1 and not (h1 - numpy.diag(numpy.diag(h1))).any():
             h1[0, 1] = h1[1, 0] = 0.5
         ham = fqe.get_restricted_hamiltonian((h1,), e_0=e0)
-        return ham, U.restricted_terms([h1], norb), e0, rng.choice(["single", "multi"])
+        # a spin-restricted Hamiltonian also acts on spin-broken wavefunctions (same matrix on both spin blocks)
+        return ham, U.restricted_terms([h1], norb), e0, rng.choice(["single", "multi", "spinbroken"])
     if route == "quadratic-gso":
         dim = 2 * norb
         h1 = numpy.zeros((dim, dim), dtype=numpy.complex128)
@@ -82,6 +83,21 @@ def make_case(ctx, rng, route, norb):
         h1[0, norb] = h1[norb, 0] = 0.5
         ham = fqe.get_gso_hamiltonian((h1,), e_0=e0)
         return ham, U.spinorb_terms([h1], norb), e0, "spinbroken"
+    if route == "quadratic-sso":
+        # spin-conserving spin-orbital one-body operator: the alpha and beta blocks are different complex Hermitian
+        # matrices (spin-dependent hopping phases), no alpha-beta mixing
+        dim = 2 * norb
+        h1 = numpy.zeros((dim, dim), dtype=numpy.complex128)
+        for s_ in range(2):
+            for i in range(norb):
+                for j in range(i, norb):
+                    if i == j:
+                        h1[s_ * norb + i, s_ * norb + i] = small()
+                    else:
+                        z = small() + 1j * small()
+                        h1[s_ * norb + i, s_ * norb + j], h1[s_ * norb + j, s_ * norb + i] = z, numpy.conj(z)
+        ham = fqe.get_sso_hamiltonian((h1,), e_0=e0)
+        return ham, U.spinorb_terms([h1], norb), e0, rng.choice(["single", "multi"])
     if route == "diagcoulomb":
         v = numpy.array([[small() if rng.random() < 0.8 else 0.0 for _ in range(norb)] for _ in range(norb)])
         if rng.random() < 0.7:
@@ -176,7 +192,7 @@ def run_main(ctx):
     d, rng = ctx.driver, ctx.rng
     quick = ctx.tier == "quick"
     routes = ["diagonal", "quadratic", "quadratic-gso", "diagcoulomb", "individual", "sparse-multi", "taylor-dense",
-              "individual-spinbroken", "individual-spinbroken"]
+              "individual-spinbroken", "individual-spinbroken", "quadratic-sso"]
     ncases = 70 if quick else 3000
     for case in range(ncases):
         route = routes[case % len(routes)]
@@ -205,7 +221,7 @@ def run_main(ctx):
         want = expm(-1j * t * H) @ psi
         if route in ("taylor-dense", "sparse-multi"):
             api = rng.choice(["time_evolve", "time_evolve", "agu-taylor", "agu-cheb"])
-        elif route in ("diagonal", "quadratic", "diagcoulomb", "quadratic-gso") and abs(t) <= 0.5:
+        elif route in ("diagonal", "quadratic", "diagcoulomb", "quadratic-gso", "quadratic-sso") and abs(t) <= 0.5:
             # the polynomial propagators must agree with the exact routes for every Hamiltonian class
             api = rng.choice(["time_evolve", "time_evolve", "agu-taylor", "agu-cheb"])
         else:
